@@ -85,6 +85,12 @@ func genC08(rt *rapid.T) C08Case {
 		t.Labels["tmpl"] = fmt.Sprint(i)
 		c.Templates = append(c.Templates, t)
 	}
+	if nt >= 2 && rapid.IntRange(0, 2).Draw(rt, "rollbackPrefix") == 0 {
+		// a rollback somewhere in the history: template a, reconcile, template b, reconcile, back to a, reconcile
+		a := rapid.IntRange(0, nt-1).Draw(rt, "rbA")
+		b := (a + 1 + rapid.IntRange(0, nt-2).Draw(rt, "rbB")) % nt
+		c.Ops = append(c.Ops, C08Op{K: 1, A: a}, C08Op{K: 0}, C08Op{K: 1, A: b}, C08Op{K: 0}, C08Op{K: 1, A: a}, C08Op{K: 0})
+	}
 	n := rapid.IntRange(1, 20).Draw(rt, "nops")
 	for i := 0; i < n; i++ {
 		o := C08Op{K: rapid.SampledFrom([]int{0, 0, 0, 0, 0, 1, 1, 1, 2, 3, 4, 5, 6, 7, 8, 9, 9, 10, 11, 11}).Draw(rt, "op")}
